@@ -248,7 +248,17 @@ func TestC12Flat(t *testing.T) {
 
 // anyNodeSetExpr draws a node-set expression from the union of the node-set fragments.
 func anyNodeSetExpr(g *xgen.G, rt *rapid.T, ctx *xdoc.Node) xast.Expr {
-	switch rapid.IntRange(0, 9).Draw(rt, "nsform") {
+	switch rapid.IntRange(0, 10).Draw(rt, "nsform") {
+	case 10:
+		// p/(s1, s2[, s3])
+		p := g.AxisPath(ctx, xgen.PathOpts{MaxSteps: 2, AbsShare: 5, DSlash: 3})
+		seq := &xast.SeqStep{}
+		n := 2 + rapid.IntRange(0, 1).Draw(rt, "nalts")
+		for i := 0; i < n; i++ {
+			seq.Alts = append(seq.Alts, g.Step(nil))
+		}
+		p.Steps = append(p.Steps, seq)
+		return p
 	case 0, 1, 2:
 		return g.AxisPath(ctx, xgen.PathOpts{MaxSteps: 3, AbsShare: 4, DSlash: 2})
 	case 3, 4:
